@@ -45,7 +45,10 @@ Inv_C16 == C16_State(S)
 Inv_WF == WF(S)
 
 (* one line per transition: the whole behaviour that ends with it *)
-ExportEdge == PrintT(<<"EDGE", ToJson([steps |-> hist'])>>)
+(* with its transition class: the codes it outputs and the state fields it changes *)
+ExportEdge == PrintT(<<"EDGE", ToJson([steps |-> hist',
+                                       sig |-> [codes |-> SetToSeq({m.c : m \in ToSet(ev'.out)}),
+                                                changes |-> SetToSeq({TagStr(t) : t \in StateTags(S, S')})]])>>)
 
 (* configuration with every field present *)
 BaseCfg == [ name |-> "irc.irc", network |-> "IRCnetwork", motd |-> "Hello, world!",
